@@ -245,6 +245,11 @@ func (s *TranslateFile) Close() (err error) {
 	s.once.Do(func() {
 		close(s.closing)
 
+		// Wait for an append that is in flight (a replicated entry is
+		// applied under s.mu and reads the memory map) before unmapping.
+		s.mu.Lock()
+		defer s.mu.Unlock()
+
 		if s.file != nil {
 			if e := s.file.Close(); e != nil && err == nil {
 				err = e
